@@ -76,7 +76,7 @@ def synth(outbase, nuclide, process, rng, n=None, shape=None, layout="test", qui
                 if e1 + e2 > Q:
                     # a well-formed table has no density above the maximum energy sum; in the 'exceeds' layout the last
                     # row is a single point above Q: it keeps a negligible weight because the encoder divides by the row sum
-                    p = 1e-30 if (layout == "exceeds" and n - i == 1) else 0.0
+                    p = 1e-30 if (layout == "exceeds" and j == 0) else 0.0   # (the first value of a row that lies entirely above Q)
                 if j == 0 and e1 + e2 <= Q:
                     p = max(p, 1e-3)   # every row keeps a non-zero sum (the encoder divides by it)
                 f.write("%.10e %.10e %.7e\n" % (e1, e2, p))
